@@ -232,6 +232,8 @@ fn translate_one(srcs: &[Src], db: &TypeDb, consts: &BTreeMap<String, i128>, t: 
             loop_fuel: false,
             loop_depth: 0,
             for_konts: Vec::new(),
+            cont_konts: Vec::new(),
+            elem_aliases: BTreeMap::new(),
             hard_inval: 0,
             epoch: 0,
             struct_params: BTreeMap::new(),
@@ -425,6 +427,7 @@ fn translate_one(srcs: &[Src], db: &TypeDb, consts: &BTreeMap<String, i128>, t: 
         let self_paths: Vec<String> = cx.inputs.iter().map(|i| i.2.trim_end_matches(" on entry").to_string()).filter(|p| p.starts_with("self.")).collect();
         let place_ins: Vec<(String, LT)> = cx.inputs.iter().map(|i| (i.2.trim_end_matches(" on entry").to_string(), i.1.clone())).collect();
         let simple = !cx.has_effects && cx.cfg_inputs.is_empty() && !cx.loop_fuel && !cx.vm_mode && cx.inputs.iter().all(|i| i.2.ends_with(" on entry"));
+        let simple_fuel = !cx.has_effects && cx.cfg_inputs.is_empty() && cx.loop_fuel && !cx.vm_mode && cx.inputs.iter().all(|i| i.2.ends_with(" on entry"));
         let sigv = Sig {
             lean: t.lean.to_string(),
             params: params.iter().map(|p| p.1.clone()).collect(),
@@ -438,6 +441,7 @@ fn translate_one(srcs: &[Src], db: &TypeDb, consts: &BTreeMap<String, i128>, t: 
             place_ins,
             written: cx.written.clone(),
             simple,
+            simple_fuel,
         };
         if let Some(o) = &owner {
             acc.callees.insert(format!("{}::{}", o, t.name), sigv.clone());
@@ -651,6 +655,8 @@ fn new_cx<'a>(
         loop_fuel: false,
         loop_depth: 0,
         for_konts: Vec::new(),
+        cont_konts: Vec::new(),
+        elem_aliases: BTreeMap::new(),
         hard_inval: 0,
         epoch: 0,
         struct_params: BTreeMap::new(),
